@@ -940,7 +940,11 @@ func (interp *Interpreter) cfg(root *node, sc *scope, importPath, pkgName string
 		case defineXStmt:
 			wireChild(n)
 			if sc.def == nil {
-				// In global scope, type definition already handled by GTA.
+				// In global scope, type definition already handled by GTA. The action of a map
+				// index source has been set by its own processing since: set it again.
+				if lc := n.lastChild(); lc.kind == indexExpr {
+					lc.gen = getIndexMap2
+				}
 				break
 			}
 			err = compDefineX(sc, n)
@@ -2513,6 +2517,19 @@ func compDefineX(sc *scope, n *node) error {
 	l := len(n.child) - 1
 	types := []*itype{}
 
+	// srcType returns the type of the source node s. At package level, compDefineX
+	// is called from GTA in pre-order, and the type of s is not set yet.
+	srcType := func(s *node) (*itype, error) {
+		if s.typ != nil {
+			return s.typ, nil
+		}
+		typ, err := nodeType(n.interp, sc, s)
+		if err == nil && typ == nil {
+			err = s.cfgErrorf("undefined type")
+		}
+		return typ, err
+	}
+
 	switch src := n.child[l]; src.kind {
 	case callExpr:
 		funtype, err := nodeType(n.interp, sc, src.child[0])
@@ -2546,7 +2563,11 @@ func compDefineX(sc *scope, n *node) error {
 		}
 
 	case indexExpr:
-		types = append(types, src.typ, sc.getType("bool"))
+		typ, err := srcType(src)
+		if err != nil {
+			return err
+		}
+		types = append(types, typ, sc.getType("bool"))
 		n.child[l].gen = getIndexMap2
 		n.gen = nop
 
@@ -2556,12 +2577,29 @@ func compDefineX(sc *scope, n *node) error {
 		} else {
 			n.child[l].gen = typeAssertLong
 		}
-		types = append(types, n.child[l].child[1].typ, sc.getType("bool"))
+		typ, err := srcType(src.child[1])
+		if err != nil {
+			return err
+		}
+		types = append(types, typ, sc.getType("bool"))
 		n.gen = nop
 
 	case unaryExpr:
 		if n.child[l].action == aRecv {
-			types = append(types, src.typ, sc.getType("bool"))
+			typ := src.typ
+			if typ == nil {
+				// Get the element type from the channel type.
+				var err error
+				if typ, err = srcType(src.child[0]); err != nil {
+					return err
+				}
+				if typ.cat == valueT {
+					typ = valueTOf(typ.rtype.Elem())
+				} else {
+					typ = typ.val
+				}
+			}
+			types = append(types, typ, sc.getType("bool"))
 			n.child[l].gen = recv2
 			n.gen = nop
 		}
